@@ -11,7 +11,7 @@ use std::{
 
 use fn_graph::{FnGraph, FnRef};
 use futures::stream::{Stream, StreamExt};
-use interruptible::{InterruptSignal, InterruptibilityState, PollOutcome};
+use crate::ishim::{mk_state, InterruptSignal};
 use serde::{Deserialize, Serialize};
 use tokio::sync::mpsc;
 
@@ -85,6 +85,9 @@ pub struct CCfg {
     /// An earlier (future-API) run executed on the same graph value before the stream is created.
     #[serde(default)]
     pub pre: Option<Box<crate::engine_s::RunCfg>>,
+    /// As RunCfg::task_budget.
+    #[serde(default)]
+    pub task_budget: Option<u16>,
 }
 
 impl CCfg {
@@ -104,6 +107,7 @@ impl CCfg {
             opts_order: 0,
             avoid: vec![],
             pre: None,
+            task_budget: None,
         }
     }
 
@@ -135,6 +139,9 @@ impl CCfg {
         }
         if !self.budgets.is_empty() {
             s += &format!(" budgets={:?}x{}", self.budgets, self.budget_polls);
+        }
+        if let Some(b) = self.task_budget {
+            s += &format!(" in-tokio-task(budget {b} per poll)");
         }
         s
     }
@@ -244,24 +251,24 @@ pub struct CDriver<'g> {
 impl<'g> CDriver<'g> {
     pub fn new(g: &'g FnGraph<Node>, cfg: &'g CCfg, irx: &'g mut mpsc::Receiver<InterruptSignal>, itx: mpsc::Sender<InterruptSignal>, ch: ChooserRef) -> Self {
         let n = g.graph.node_count();
-        let state = match cfg.strat {
-            Strat::Non => InterruptibilityState::new_non_interruptible(),
-            Strat::Ignore => InterruptibilityState::new_ignore_interruptions(irx.into()),
-            Strat::Finish => InterruptibilityState::new_finish_current(irx.into()),
-            Strat::NextN(k) => InterruptibilityState::new_poll_next_n(irx.into(), k),
-        };
+        let state = mk_state(cfg.strat, irx);
         let opts = crate::engine_s::build_opts(cfg.opts_order, state, cfg.include, cfg.rev);
-        fn po<'a>(p: PollOutcome<FnRef<'a, Node>>) -> Item<'a> {
+        #[cfg(feature = "interruptible")]
+        fn po<'a>(p: interruptible::PollOutcome<FnRef<'a, Node>>) -> Item<'a> {
             match p {
-                PollOutcome::NoInterrupt(r) => Item::NoInt(r),
-                PollOutcome::Interrupted(r) => Item::Int(r),
+                interruptible::PollOutcome::NoInterrupt(r) => Item::NoInt(r),
+                interruptible::PollOutcome::Interrupted(r) => Item::Int(r),
             }
         }
         let s: BoxS<'g> = match cfg.api {
             SApi::Stream => Box::pin(g.stream().map(Item::Plain)),
             SApi::StreamWith => Box::pin(g.stream_with(opts).map(Item::Plain)),
+            #[cfg(feature = "interruptible")]
             SApi::StreamInterruptible => Box::pin(g.stream_interruptible().map(po)),
+            #[cfg(feature = "interruptible")]
             SApi::StreamWithInterruptible => Box::pin(g.stream_with_interruptible(opts).map(po)),
+            #[cfg(not(feature = "interruptible"))]
+            SApi::StreamInterruptible | SApi::StreamWithInterruptible => panic!("stream_interruptible does not exist in the default-feature build"),
         };
         CDriver {
             s: Some(s),
@@ -424,7 +431,7 @@ impl<'g> CDriver<'g> {
                     return Some((Status::Livelock, None));
                 }
                 let st = self.s.as_mut().unwrap();
-                let p = match budget {
+                let p = match budget.or(cfg.task_budget) {
                     None => st.as_mut().poll_next(&mut cx),
                     Some(b) => crate::budget::poll_with_budget(b, || st.as_mut().poll_next(&mut cx)),
                 };
